@@ -66,7 +66,7 @@ def _as_number(x, what):
             raise Violation(f"{what}: still symbolic after resolving every symbol: {x!r}"[:300])
         return complex(x)
     if isinstance(x, (str, bytes)) or x is None:
-        raise Violation(f"{what}: not a number: {x!r}")
+        raise Violation(f"not a number: {x!r}\n  case: {what}")
     return complex(x)
 
 
@@ -74,7 +74,7 @@ def _cmp_num(what, got, want, tol):
     g = _as_number(got, what)
     d = abs(g - complex(want))
     if not d <= tol:
-        raise Violation(f"{what}: {g!r} differs from substituted value {want!r} by {d:.3g} (tol {tol:.1g})")
+        raise Violation(f"{g!r} differs from substituted value {want!r} by {d:.3g} (tol {tol:.1g})\n  case: {what}")
 
 
 def _free_names(obj) -> set:
@@ -548,11 +548,11 @@ def _gate_labels(r, trees):
 def _check_kraus(what, a, b, tol):
     ka, kb = cirq.kraus(a), cirq.kraus(b)
     if len(ka) != len(kb):
-        raise Violation(f"{what}: {len(ka)} Kraus operators, numeric gate has {len(kb)}")
+        raise Violation(f"{len(ka)} Kraus operators, numeric gate has {len(kb)}\n  case: {what}")
     for x, y in zip(ka, kb):
         d = L.max_abs_diff(x, y)
         if not d <= tol:
-            raise Violation(f"{what}: Kraus operators differ from those of the numeric gate by {d:.3g}")
+            raise Violation(f"Kraus operators differ from those of the numeric gate by {d:.3g}\n  case: {what}")
 
 
 @_domain
@@ -571,12 +571,12 @@ def oracle_gate_unitary(r):
     labels = _gate_labels(r, trees)
     if not trees and r["wrap"] not in ("cop_rep",):
         if not (resolved == obj):
-            raise Violation(f"{what}: resolving an unparameterised object changed it")
+            raise Violation(f"resolving an unparameterised object changed it\n  case: {what}")
         return labels
     if cirq.is_parameterized(resolved):
-        raise Violation(f"{what}: still parameterized after resolving every symbol ({sorted(cirq.parameter_names(resolved))})")
+        raise Violation(f"still parameterized after resolving every symbol ({sorted(cirq.parameter_names(resolved))})\n  case: {what}")
     if cirq.parameter_names(resolved):
-        raise Violation(f"{what}: parameter_names non-empty after resolving every symbol")
+        raise Violation(f"parameter_names non-empty after resolving every symbol\n  case: {what}")
     tol = 1e-7 * (1 + stat.get("max", 0.0))
     if fam == "RandomGate":
         _check_kraus(what, resolved, ref, tol)
@@ -586,23 +586,23 @@ def oracle_gate_unitary(r):
         ng = ref if r["wrap"] == "gate" else ref.gate
         a, b = gg.duration.total_picos(), ng.duration.total_picos()
         if not abs(a - b) <= 1e-6 * (1 + abs(b)):
-            raise Violation(f"{what}: resolved duration {a} ps, expected {b} ps")
+            raise Violation(f"resolved duration {a} ps, expected {b} ps\n  case: {what}")
     got, want = _matrix(resolved, r, qs), _matrix(ref, r, qs)
     if got.shape != want.shape:
-        raise Violation(f"{what}: unitary shape {got.shape}, numeric gate {want.shape}")
+        raise Violation(f"unitary shape {got.shape}, numeric gate {want.shape}\n  case: {what}")
     d = L.max_abs_diff(got, want)
     if not d <= tol:
-        raise Violation(f"{what}: unitary(resolve(g(symbolic), r)) differs from unitary(g(numeric)) by {d:.3g} (tol {tol:.1g})")
+        raise Violation(f"unitary(resolve(g(symbolic), r)) differs from unitary(g(numeric)) by {d:.3g} (tol {tol:.1g})\n  case: {what}")
     if r["wrap"] == "ptag":
         tags = [t for t in resolved.tags if isinstance(t, ParamTag)]
         if len(tags) != 1:
-            raise Violation(f"{what}: parameterised tag lost")
+            raise Violation(f"parameterised tag lost\n  case: {what}")
         _cmp_num(f"{what}: resolved tag value", tags[0].v, M.ev(r["tagx"], lookup), _tol(stat))
         if "vf_tag" not in resolved.tags:
-            raise Violation(f"{what}: plain tag lost")
+            raise Violation(f"plain tag lost\n  case: {what}")
     if r["wrap"] in ("cc", "cc_sympy"):
         if resolved.classical_controls != obj.classical_controls:
-            raise Violation(f"{what}: classical controls changed by parameter resolution: {resolved.classical_controls}")
+            raise Violation(f"classical controls changed by parameter resolution: {resolved.classical_controls}\n  case: {what}")
     return labels
 
 
@@ -617,16 +617,16 @@ def oracle_cop_protocol(r):
     what = f"{case['g'][0]} via {r['wrap']}"
     want = ref.mapped_circuit(deep=True).unitary(qubit_order=sorted(ref.qubits), dtype=np.complex128)
     if not cirq.has_unitary(resolved):
-        raise Violation(f"{what}: has_unitary false for a fully resolved CircuitOperation of unitary gates")
+        raise Violation(f"has_unitary false for a fully resolved CircuitOperation of unitary gates\n  case: {what}")
     tol = 1e-7 * (1 + stat.get("max", 0.0))
     got = cirq.unitary(resolved)
     d = L.max_abs_diff(got, want)
     if not d <= tol:
-        raise Violation(f"{what}: cirq.unitary(resolved CircuitOperation) differs from the numeric gate by {d:.3g}")
+        raise Violation(f"cirq.unitary(resolved CircuitOperation) differs from the numeric gate by {d:.3g}\n  case: {what}")
     got2 = cirq.Circuit(resolved).unitary(qubit_order=sorted(ref.qubits), dtype=np.complex128)
     d = L.max_abs_diff(got2, want)
     if not d <= tol:
-        raise Violation(f"{what}: Circuit(resolved CircuitOperation).unitary() differs from the numeric gate by {d:.3g}")
+        raise Violation(f"Circuit(resolved CircuitOperation).unitary() differs from the numeric gate by {d:.3g}\n  case: {what}")
     lab = _gate_labels(r, trees)
     lab["arity"] = cirq.num_qubits(g_num)
     return lab
@@ -697,19 +697,19 @@ def oracle_gate_names(r):
     exp = _expected_names(r)
     got = set(cirq.parameter_names(obj))
     if got != exp and not _degenerate(trees):
-        raise Violation(f"{what}: parameter_names {sorted(got)} but the symbolic slots hold {sorted(exp)}")
+        raise Violation(f"parameter_names {sorted(got)} but the symbolic slots hold {sorted(exp)}\n  case: {what}")
     ip = cirq.is_parameterized(obj)
     if exp and not ip:
-        raise Violation(f"{what}: is_parameterized false although parameter_names={sorted(exp)}")
+        raise Violation(f"is_parameterized false although parameter_names={sorted(exp)}\n  case: {what}")
     if ip and not exp and not _sym_constants(r):
-        raise Violation(f"{what}: is_parameterized true although no slot holds a sympy object")
+        raise Violation(f"is_parameterized true although no slot holds a sympy object\n  case: {what}")
     labels = _gate_labels(r, trees)
     labels["n_names"] = len(exp)
     labels["pow_partial"] = _gate_pow_partial(r)
     # unrelated resolver: equal object back, names unchanged
     same = cirq.resolve_parameters(obj, {ZZ: 0.5})
     if set(cirq.parameter_names(same)) != exp and not _degenerate(trees):
-        raise Violation(f"{what}: resolving an unrelated symbol changed parameter_names to {sorted(cirq.parameter_names(same))}")
+        raise Violation(f"resolving an unrelated symbol changed parameter_names to {sorted(cirq.parameter_names(same))}\n  case: {what}")
     # partial numeric resolution
     sub = [n for n in r.get("sub", []) if M.value_to_python(r["vals"][n]) is not None]
     r1 = {n: r["vals"][n] for n in sub}
@@ -718,9 +718,9 @@ def oracle_gate_names(r):
     mid = cirq.resolve_parameters(obj, M.build_param_dict(r1, r["keyform"])) if r1 else obj
     mid_names = set(cirq.parameter_names(mid))
     if mid_names & set(r1):
-        raise Violation(f"{what}: resolved symbols {sorted(mid_names & set(r1))} still in parameter_names")
+        raise Violation(f"resolved symbols {sorted(mid_names & set(r1))} still in parameter_names\n  case: {what}")
     if not mid_names <= exp:
-        raise Violation(f"{what}: partial resolution introduced symbols {sorted(mid_names - exp)}")
+        raise Violation(f"partial resolution introduced symbols {sorted(mid_names - exp)}\n  case: {what}")
     zero = any(M.value_to_python(v) == 0 for v in r1.values())
     if not zero and not _degenerate(trees) and r["wrap"] != "cop_pr":
         want = set()
@@ -729,19 +729,19 @@ def oracle_gate_names(r):
             if isinstance(o, sympy.Basic):
                 want |= _free_names(o.subs({sympy.Symbol(n): M.value_to_python(v) for n, v in r1.items()}))
         if mid_names != want:
-            raise Violation(f"{what}: parameter_names after resolving {sorted(r1)} is {sorted(mid_names)}, expected {sorted(want)}")
+            raise Violation(f"parameter_names after resolving {sorted(r1)} is {sorted(mid_names)}, expected {sorted(want)}\n  case: {what}")
     labels["partial"] = bool(r1) and bool(mid_names)
     if mid_names and not cirq.is_parameterized(mid):
-        raise Violation(f"{what}: is_parameterized false but parameter_names={sorted(mid_names)} after partial resolution")
+        raise Violation(f"is_parameterized false but parameter_names={sorted(mid_names)} after partial resolution\n  case: {what}")
     # second stage gives the numeric twin
     fin = cirq.resolve_parameters(mid, M.build_param_dict(r["vals"], "str"))
     if cirq.is_parameterized(fin) or cirq.parameter_names(fin):
-        raise Violation(f"{what}: two-stage resolution leaves parameters {sorted(cirq.parameter_names(fin))}")
+        raise Violation(f"two-stage resolution leaves parameters {sorted(cirq.parameter_names(fin))}\n  case: {what}")
     if fam != "RandomGate":
         ref = _wrap(g_num, r, "num", lookup, qs, inv)
         d = L.max_abs_diff(_matrix(fin, r, qs), _matrix(ref, r, qs))
         if not d <= 1e-7 * (1 + stat.get("max", 0.0)):
-            raise Violation(f"{what}: resolve(resolve(g, r1), r2) differs from the numeric gate by {d:.3g}")
+            raise Violation(f"resolve(resolve(g, r1), r2) differs from the numeric gate by {d:.3g}\n  case: {what}")
     return labels
 
 
@@ -777,12 +777,12 @@ def _same_assignment(got_pairs, want_pairs):
 def _check_points(what, resolvers, want):
     resolvers = list(resolvers)
     if len(resolvers) != len(want):
-        raise Violation(f"{what}: {len(resolvers)} assignments, the definition describes {len(want)}")
+        raise Violation(f"{len(resolvers)} assignments, the definition describes {len(want)}\n  case: {what}")
     for i, (res, w) in enumerate(zip(resolvers, want)):
         if not isinstance(res, cirq.ParamResolver):
-            raise Violation(f"{what}: element {i} is a {type(res).__name__}, not a ParamResolver")
+            raise Violation(f"element {i} is a {type(res).__name__}, not a ParamResolver\n  case: {what}")
         if not _same_assignment(res.param_dict.items(), w):
-            raise Violation(f"{what}: assignment {i} is {dict(res.param_dict)!r}, the definition describes {dict((k, v) for k, v in w)!r}")
+            raise Violation(f"assignment {i} is {dict(res.param_dict)!r}, the definition describes {dict((k, v) for k, v in w)!r}\n  case: {what}")
 
 
 def _perturb(t, j):
@@ -1020,10 +1020,10 @@ def _sim_setup(r, max_points=10):
 def _cmp_arr(what, got, want, tol):
     got, want = np.asarray(got), np.asarray(want)
     if got.shape != want.shape:
-        raise Violation(f"{what}: shape {got.shape} != {want.shape}")
+        raise Violation(f"shape {got.shape} != {want.shape}\n  case: {what}")
     d = L.max_abs_diff(got, want)
     if not d <= tol:
-        raise Violation(f"{what}: differs from the per-assignment simulation of the numeric circuit by {d:.3g} (tol {tol:.1g})")
+        raise Violation(f"differs from the per-assignment simulation of the numeric circuit by {d:.3g} (tol {tol:.1g})\n  case: {what}")
 
 
 def _circuit_labels(r, n_points=None):
@@ -1221,21 +1221,21 @@ def _op_matrix(op):
 
 def _same_structure(what, got, ref, tol):
     if len(got) != len(ref):
-        raise Violation(f"{what}: {len(got)} moments, the numeric circuit has {len(ref)}")
+        raise Violation(f"{len(got)} moments, the numeric circuit has {len(ref)}\n  case: {what}")
     for mi, (mg, mr) in enumerate(zip(got, ref)):
         og, orf = list(mg.operations), list(mr.operations)
         if len(og) != len(orf):
-            raise Violation(f"{what}: moment {mi} has {len(og)} operations, the numeric circuit has {len(orf)}")
+            raise Violation(f"moment {mi} has {len(og)} operations, the numeric circuit has {len(orf)}\n  case: {what}")
         for a, b in zip(og, orf):
             if a.qubits != b.qubits or type(a.untagged) is not type(b.untagged):
                 raise Violation(f"{what}: moment {mi}: {a!r} where the numeric circuit has {b!r}"[:400])
             if set(map(repr, a.tags)) != set(map(repr, b.tags)):
-                raise Violation(f"{what}: moment {mi}: tags {a.tags} where the numeric circuit has {b.tags}")
+                raise Violation(f"moment {mi}: tags {a.tags} where the numeric circuit has {b.tags}\n  case: {what}")
             if cirq.is_parameterized(a):
                 raise Violation(f"{what}: moment {mi}: operation still parameterized: {a!r}"[:300])
             d = L.max_abs_diff(_op_matrix(a), _op_matrix(b))
             if not d <= tol:
-                raise Violation(f"{what}: moment {mi}: operation matrix differs from the numeric operation by {d:.3g}")
+                raise Violation(f"moment {mi}: operation matrix differs from the numeric operation by {d:.3g}\n  case: {what}")
 
 
 def _circuit_numeric(r):
@@ -1440,25 +1440,25 @@ def uncovered():
 
 
 SUBCHECKS = [
-    SubCheck("expr_value", _expr_value_case(), oracle_expr_value, quick=2400, thorough=80000, shards_quick=4, shards_thorough=16,
+    SubCheck("expr_value", _expr_value_case(), oracle_expr_value, quick=2000, thorough=80000, shards_quick=4, shards_thorough=16,
              essential={"has_pow": 0.1, "chain=2": 0.01, "cycle": 0.003, "complex": 0.03}),
     SubCheck("expr_funcs", _expr_value_case(funcs=True), oracle_expr_value, quick=200, thorough=30000, shards_quick=1,
              shards_thorough=8, essential={"funcs": 0.2}),
-    SubCheck("expr_compose", _compose_case(), oracle_expr_compose, quick=2000, thorough=60000, shards_quick=4, shards_thorough=16,
+    SubCheck("expr_compose", _compose_case(), oracle_expr_compose, quick=1600, thorough=60000, shards_quick=4, shards_thorough=16,
              essential={"mode=nonrec": 0.1, "mode=chain": 0.1}),
-    SubCheck("gate_unitary", _gate_case(), oracle_gate_unitary, quick=2400, thorough=80000, shards_quick=4, shards_thorough=16),
-    SubCheck("gate_names", _gate_case(partial=True), oracle_gate_names, quick=1600, thorough=50000, shards_quick=4, shards_thorough=16,
+    SubCheck("gate_unitary", _gate_case(), oracle_gate_unitary, quick=2000, thorough=80000, shards_quick=4, shards_thorough=16),
+    SubCheck("gate_names", _gate_case(partial=True), oracle_gate_names, quick=1200, thorough=50000, shards_quick=4, shards_thorough=16,
              essential={"partial": 0.1}),
     SubCheck("cop_protocol", _gate_case(wraps=list(COP), families=[f for f in CG.sym_families() if f not in ("RandomGate", "Wait")]),
-             oracle_cop_protocol, quick=500, thorough=15000, shards_quick=1, shards_thorough=8),
-    SubCheck("circuit_resolve", _circuit_case(), oracle_circuit_resolve, quick=1200, thorough=40000, shards_quick=4, shards_thorough=16,
+             oracle_cop_protocol, quick=400, thorough=15000, shards_quick=1, shards_thorough=8),
+    SubCheck("circuit_resolve", _circuit_case(), oracle_circuit_resolve, quick=1000, thorough=40000, shards_quick=4, shards_thorough=16,
              essential={"only_last_op_of_a_moment_changes": 0.03}),
-    SubCheck("sweeps", _sweep_case(), oracle_sweeps, quick=3000, thorough=100000, shards_quick=4, shards_thorough=16,
+    SubCheck("sweeps", _sweep_case(), oracle_sweeps, quick=2400, thorough=100000, shards_quick=4, shards_thorough=16,
              essential={"has_ziplongest": 0.05, "empty": 0.03, "single": 0.05, "contract_reject": 0.02, "depth=2": 0.1}),
-    SubCheck("sweep_repr", _sweep_case(bad_rate=0), oracle_sweep_repr, quick=800, thorough=30000, shards_quick=2, shards_thorough=8),
+    SubCheck("sweep_repr", _sweep_case(bad_rate=0), oracle_sweep_repr, quick=600, thorough=30000, shards_quick=2, shards_thorough=8),
     SubCheck("sim_sweep", _sim_case(), oracle_sim_sweep, quick=600, thorough=20000, shards_quick=4, shards_thorough=16,
              essential={"ran": 0.3}),
     SubCheck("flatten", _flatten_case(), oracle_flatten, quick=600, thorough=20000, shards_quick=4, shards_thorough=16,
              essential={"collision": 0.05}),
-    SubCheck("commute", _circuit_case(with_f=True), oracle_commute, quick=1000, thorough=30000, shards_quick=4, shards_thorough=16),
+    SubCheck("commute", _circuit_case(with_f=True), oracle_commute, quick=800, thorough=30000, shards_quick=4, shards_thorough=16),
 ]
